@@ -356,7 +356,7 @@ def make_machine(tier, recorder):
 STAGES = [
     Stage(name="histories", kind="machine", check=check_trace, classify=classify, machine=make_machine,
           budget={"quick": 60, "thorough": 600}, steps={"quick": 30, "thorough": 60},
-          floors={"edit-then-reparse": 0.3, "evict-then-reparse": 0.03},
+          floors={"edit-then-reparse": 0.25, "evict-then-reparse": 0.03},
           shrink_budget={"quick": 1500, "thorough": 6000},
           sample=lambda c: {"ops": [op if op["op"] != "add" else {"op": "add", "s": op["entry"]["s"], "kind": op["entry"]["kind"]} for op in c["ops"][:14]]}),
 ]  # fmt: skip
